@@ -3,6 +3,9 @@
 // the Ninja loader only needs a finite map from byte strings to values.  The model is an insertion-ordered array of at
 // most 6 entries with keys of at most 8 bytes ("outside bound" beyond); look-up compares length and bytes.
 #pragma once
+#ifndef VF_SM_KEY
+#define VF_SM_KEY 8      // longest key (bytes)
+#endif
 #include "llvm/ADT/StringRef.h"
 #include <utility>
 #include <string>
@@ -11,7 +14,7 @@ template <typename ValueT, typename AllocatorTy = void>
 class StringMap {
 public:
   struct value_type {
-    char keybuf[8]; unsigned keylen; ValueT second;
+    char keybuf[VF_SM_KEY]; unsigned keylen; ValueT second;
     StringRef getKey() const { return StringRef(keybuf, keylen); }
     StringRef first() const { return getKey(); }
     ValueT& getValue() { return second; }
@@ -20,7 +23,7 @@ public:
   typedef value_type* iterator; typedef const value_type* const_iterator;
 private:
   value_type items[6]; unsigned n = 0;
-  int idx(StringRef k) const { for (unsigned i = 0; i < n; i++) if (items[i].keylen == k.size()) { bool eq = true; for (unsigned j = 0; j < 8; j++) if (j < k.size() && items[i].keybuf[j] != k[j]) eq = false; if (eq) return (int)i; } return -1; }
+  int idx(StringRef k) const { for (unsigned i = 0; i < n; i++) if (items[i].keylen == k.size()) { bool eq = true; for (unsigned j = 0; j < VF_SM_KEY; j++) if (j < k.size() && items[i].keybuf[j] != k[j]) eq = false; if (eq) return (int)i; } return -1; }
 public:
   StringMap() {}
   iterator end() { return items + 6; } const_iterator end() const { return items + 6; }
@@ -32,8 +35,8 @@ public:
   ValueT lookup(StringRef k) const { int i = idx(k); return i < 0 ? ValueT() : items[i].second; }
   ValueT& operator[](StringRef k) {
     int i = idx(k); if (i >= 0) return items[i].second;
-    __CPROVER_assert(n < 6 && k.size() <= 8, "model: more than 6 map entries or a key longer than 8 bytes (outside bound)"); if (!(n < 6 && k.size() <= 8)) __CPROVER_assume(false);
-    for (unsigned j = 0; j < 8; j++) items[n].keybuf[j] = j < k.size() ? k[j] : 0;
+    __CPROVER_assert(n < 6 && k.size() <= VF_SM_KEY, "model: more than 6 map entries or a key longer than 8 bytes (outside bound)"); if (!(n < 6 && k.size() <= VF_SM_KEY)) __CPROVER_assume(false);
+    for (unsigned j = 0; j < VF_SM_KEY; j++) items[n].keybuf[j] = j < k.size() ? k[j] : 0;
     items[n].keylen = (unsigned)k.size(); items[n].second = ValueT(); return items[n++].second;
   }
   std::pair<iterator, bool> insert(std::pair<StringRef, ValueT> kv) { int i = idx(kv.first); if (i >= 0) return std::make_pair(&items[i], false); (*this)[kv.first] = kv.second; return std::make_pair(&items[n - 1], true); }
